@@ -1846,6 +1846,20 @@ static int32_t tls13ParseCertificate(ssl_t *ssl,
         *currentCert = cert;
         currentCert = &((*currentCert)->next);
         numCerts++;
+#  ifdef ALLOW_VERSION_1_ROOT_CERT_PARSE
+        /* When ALLOW_VERSION_1_ROOT_CERT_PARSE is defined,
+           psX509ParseCert lets version 1 and 2 certificates through, in
+           order to support loading of locally trusted v1 root certs.
+           Certificates sent by the peer must still be version 3: older
+           ones have no basicConstraints and psX509AuthenticateCert skips
+           the CA test for them (same check as in parseCertificate). */
+        if (cert->version != 2)
+        {
+            psTraceErrr("Version 1 peer certificates not allowed\n");
+            ssl->err = SSL_ALERT_BAD_CERTIFICATE;
+            return MATRIXSSL_ERROR;
+        }
+#  endif /* ALLOW_VERSION_1_ROOT_CERT_PARSE */
 
         psTracePrintCertSubject(INDENT_HS_MSG,
                 ssl, cert, numCerts);
